@@ -10,7 +10,7 @@ Streams
   raw   : mutated images (truncations, byte substitutions in the header tables) → model vs real, errors included
   big   : REAL extended numbering on every run: one image with ≥ 0xff00 sections (or the largest table without
           escape), one with ≥ 0xffff segments, one with ≥ 0xffff segments in the shape of a Linux core dump (one null
-          section header, e_shstrndx = SHN_UNDEF: outside wfZ, inside `extnum_only_partial`), run-length encoded on the
+          section header, e_shstrndx = SHN_UNDEF: no name table; inside wfZ, and `extnum_only`), run-length encoded on the
           wire; one enumeration of each table against the Spec, counts and indexed access at spot indices against
           the model as well
 """
@@ -21,7 +21,8 @@ from common import run_impl, canon, hx, rnd_uint, rnd_bytes
 RULE = ('ast: ElfDesc drawn type-directed: cls∈{32,64} × LSB/MSB × 8 machine classes (+unnamed codes) × Solaris/other × core/other; '
         '0..14 sections over every section kind with valid links, 0..6 segments, random region order/gaps, entry sizes padded by 0/8/24, '
         'escapes forced on small tables; SHF_COMPRESSED on 0/15/40 % of the sections of a file (Chdr + payload, Chdr alone, or fewer bytes '
-        'than a Chdr = outside wfZ), the name table included; 5 % files without a name table (known finding); 6 % files with names that are not '
+        'than a Chdr = outside wfZ), the name table included; 5 % files without a name table (e_shstrndx = SHN_UNDEF: every section nameless, '
+        'sh_name arbitrary); 6 % files with names that are not '
         'valid UTF-8 (model only); integers from boundary pools. '
         'big: ≥0xff00 sections / ≥0xffff segments at and around the escape boundaries, both classes and byte orders (quick: 3 images — many sections, many segments, many segments in the shape of a Linux core dump without name table —, thorough: 9 '
         'plus 4 fully enumerated with lookups). raw: truncation at table boundaries and single-byte substitutions of header-table bytes. '
@@ -85,8 +86,10 @@ def gen_desc(rng, big=None):
         return rnd_uint(rng, 32)
 
     nsec = rng.choice([0, 2, 2, 3, 5, 8, 12, 14]) if big is None else big.get('nsec', 3)
-    # a file with sections and NO section-name string table (gABI: e_shstrndx = SHN_UNDEF): every section nameless
+    # a file with sections and NO section-name string table (gABI: e_shstrndx = SHN_UNDEF): every section nameless,
+    # whatever its sh_name says (half of these files carry arbitrary sh_name values)
     nonames = big is None and nsec > 0 and rng.random() < 0.05
+    nonames_junk = nonames and rng.random() < 0.5
     if nonames and rng.random() < 0.3:
         nsec = 1
     nseg = rng.choice([0, 0, 1, 2, 4, 6]) if big is None else big.get('nseg', 1)
@@ -239,7 +242,7 @@ def gen_desc(rng, big=None):
         segs.append(dict(p_type=t, p_offset=X(), p_vaddr=X(), p_paddr=X(), p_filesz=X(), p_memsz=X(), p_flags=W(), p_align=X()))
     # escapes
     xShnum = nsec > 0 and (rng.random() < 0.15 or nsec >= 0xff00)
-    xShstr = nsec > 0 and not nonames and (rng.random() < 0.15 or shstrndx >= 0xff00)
+    xShstr = nsec > 0 and (rng.random() < 0.15 or shstrndx >= 0xff00)      # without a name table: SHN_XINDEX and sh_link[0] = SHN_UNDEF
     xPh = nsec > 0 and (rng.random() < 0.15 or nseg >= 0xffff)
     if nsec > 0:
         if xShnum: secs[0]['size'] = nsec
@@ -275,7 +278,7 @@ def gen_desc(rng, big=None):
         'ehdr': R(EI_VERSION=rng.choice([1, 1, 0, 7]), EI_OSABI=osabi, EI_ABIVERSION=rng.randrange(256), e_type=e_type,
                   e_machine=e_machine, e_version=rng.choice([1, 1, 0, 0xffffffff]), e_entry=X(), e_flags=W(), e_ehsize=rng.choice([ehsize, 0, 0xffff])),
         'shoff': shoff, 'phoff': phoff, 'shentsize': shentsize, 'phentsize': phentsize,
-        'sections': [{'name': hx(s['name']), 'nameOff': name_off.get(s['name'], 0),
+        'sections': [{'name': hx(s['name']), 'nameOff': rnd_uint(rng, 32) if nonames_junk else name_off.get(s['name'], 0),
                       'hdr': R(sh_type=s['type'], sh_flags=s['flags'], sh_addr=s['addr'], sh_offset=s['offset'], sh_size=s['size'],
                                sh_link=s['link'], sh_info=s['info'], sh_addralign=s['addralign'], sh_entsize=s['entsize']),
                       'body': hx(s['body']) if s.get('body') else None} for s in secs],
@@ -344,13 +347,6 @@ def run_ast(ctx):
         if not r.get('wf'):
             # outside the theorems' domain (wfZ): never compared with `expect`; the model mirrors the code on every byte
             # string, so the correspondence still has to hold
-            if r.get('wfN'):
-                # … except the well-formed files WITHOUT a section-name string table (Spec/ElfNoNames.lean): the property
-                # covers them, no theorem does: known finding `no-name-table`
-                ctx.out.count('ast:no-name-table')
-                impl = run_impl(lambda: impl_observe(data, rq['queries']))
-                if impl != r['expect']:
-                    ctx.out.violation('property', 'ast', case, expect=r['expect'], got=impl, model=r.get('model'))
             ctx.out.count('ast:not-wf:z=' + meta['z'])
             if r.get('model') is not None and not _too_many(data):
                 impl = run_impl(lambda: impl_observe(data, rq['queries']))
@@ -374,6 +370,9 @@ def run_ast(ctx):
         # wf0: inside `wf` (no SHF_COMPRESSED section, theorems *_exact); otherwise inside wfZ only (theorems *_exact_z)
         ctx.out.count('ast:domain=' + ('wf' if meta['nz'] == 0 else 'wfZ-only'))
         ctx.out.count('ast:compressed-sections=%d' % min(meta['nz'], 4))
+        if meta['nonames']:
+            # a file without a section-name string table (e_shstrndx = SHN_UNDEF): judged like any other well-formed file
+            ctx.out.count('ast:no-name-table')
         if meta['ztab']:
             ctx.out.count('ast:compressed-shstrtab')
         if r.get('wf0') is not None and bool(r['wf0']) != (meta['nz'] == 0):
@@ -473,8 +472,8 @@ def gen_big(rng, which):
 def gen_big_core(rng, cls, le, nseg):
     """The ≥ 0xffff-segment file as it occurs in practice: a core dump as the Linux kernel writes it (fs/binfmt_elf.c
     fill_extnum_info) — e_type = ET_CORE, ONE section header (SHT_NULL, sh_size = 1, sh_link = 0, sh_info = the segment
-    count), e_shnum = 1, e_shstrndx = SHN_UNDEF: no section-name string table.  Outside wfZ, inside the domain of the
-    theorem `extnum_only_partial` (everything exact, name of the null section aside)."""
+    count), e_shnum = 1, e_shstrndx = SHN_UNDEF: no section-name string table (the null section is nameless).  Inside wfZ
+    like every file without a name table, and inside the domain of the theorem `extnum_only`."""
     wbits = cls
 
     def X():
@@ -552,30 +551,16 @@ def check_big(ctx, case):
     r = ctx.driver.ask({'p': 'C01', 'k': 'big', 'ast': case['ast'], 'secIdx': case['secIdx'], 'segIdx': case['segIdx']})
     if 'fatal' in r:
         raise RuntimeError('driver: %s' % r['fatal'])
-    if not (r.get('wf') or r.get('wfX')):
+    if not r.get('wf'):
         return r, None
     data = bytes.fromhex(r['bytes'])
     impl = run_impl(lambda: impl_observe_big(data, case['secIdx'], case['segIdx']))
     return r, impl
 
 
-def _nameless(res):
-    """an observation with every section name blanked: what `extnum_only_partial` proves for the files without a name table"""
-    if 'ok' not in res:
-        return res
-    o = dict(res['ok'])
-    if 'sections' in o:
-        o['sections'] = [[n, [s[0], None, s[2]]] for n, s in o['sections']]
-    o['secAt'] = [[s[0], None, s[2]] for s in o['secAt']]
-    return {'ok': o}
-
-
 def _big_fails(r, impl):
-    """(kind of failure or None): the property comparison is the full one inside wfZ and the name-blind one inside wfX"""
-    if r.get('wf'):
-        if impl != r['expect']:
-            return 'property'
-    elif _nameless(impl) != _nameless(r['expect']):
+    """(kind of failure or None); only called inside wfZ"""
+    if impl != r['expect']:
         return 'property'
     if _spot(impl) != r['model']:
         return 'correspondence'
@@ -592,7 +577,7 @@ def run_big(ctx):
             ctx.out.count('big:not-wf')
             continue
         ctx.out.count('big:nsec=%#x,nseg=%#x,elf%d%s' % (meta['nsec'], meta['nseg'], meta['cls'], ',kernel-core-shape' if meta.get('core') else ''))
-        ctx.out.count('big:domain=' + ('wfZ' if r.get('wf') else 'extnumOnly'))
+        ctx.out.count('big:domain=wfZ')
         ctx.out.case({'big': [meta['nsec'], meta['nseg'], meta['cls'], ast['le'], ast['shoff'], ast['phoff']]})
         kind = _big_fails(r, impl)
         if kind == 'property':
@@ -705,11 +690,10 @@ def replay(ctx, payload):
         r = ctx.driver.ask({'p': 'C01', 'k': 'ast', 'ast': case['ast'], 'queries': case['queries'], 'tail': case.get('tail', 0)})
         data = bytes.fromhex(r['bytes'])
         impl = run_impl(lambda: impl_observe(data, case['queries']))
-        # the property comparison applies inside wfZ with valid UTF-8 names (and to the files without a name table, the
-        # known finding); the correspondence applies to every image
+        # the property comparison applies inside wfZ with valid UTF-8 names; the correspondence applies to every image
         bad = any(bytes.fromhex(x['name']).decode('utf-8', errors='replace').encode('utf-8') != bytes.fromhex(x['name'])
                   for x in case['ast']['sections'])
-        in_domain = (r.get('wf') and not bad) or (not r.get('wf') and r.get('wfN'))
+        in_domain = r.get('wf') and not bad
         return {'stream': 'ast', 'bytes': r['bytes'], 'impl': impl, 'expect': r['expect'], 'model': r['model'], 'in_domain': bool(in_domain),
                 'fails': (in_domain and impl != r['expect']) or impl != r['model']}
     data = bytes.fromhex(case['hex'])
@@ -718,25 +702,6 @@ def replay(ctx, payload):
     return {'stream': 'raw', 'impl': impl, 'model': r['model'], 'fails': impl != r['model']}
 
 
-def _no_name_table(v):
-    """The input class of the known finding `no-name-table`, decided on the generated description (sections, e_shstrndx =
-    SHN_UNDEF stored directly, section 0 without bytes, every section nameless) — and, so that nothing else hides behind
-    it, only when the report differs from the expectation in section names (and what depends on them: the object kind,
-    lookups by name) alone."""
-    if v.get('kind') != 'property' or v.get('stream') != 'ast':
-        return False
-    a = v['case']['ast']
-    secs = a['sections']
-    if not (len(secs) > 0 and a['shstrndx'] == 0 and not a['xShstrndx'] and secs[0].get('body') is None
-            and all('rep' not in s and s['name'] == '' and s['nameOff'] == 0 for s in secs)):
-        return False
-    e, g = v.get('expect'), v.get('got')
-    if not (isinstance(e, dict) and isinstance(g, dict) and 'ok' in e and 'ok' in g):
-        return False
-    e, g = e['ok'], g['ok']
-    if any(e[k] != g[k] for k in ('elfclass', 'little_endian', 'header', 'segments')) or len(e['sections']) != len(g['sections']):
-        return False
-    return all(x[2] == y[2] for x, y in zip(e['sections'], g['sections']))
-
-
-FINDINGS = {'no-name-table': _no_name_table}
+# the finding `no-name-table` (files with sections and e_shstrndx = SHN_UNDEF got section 0 taken for the name table) is
+# repaired (fixes/C01-no-name-table.patch): such files are judged like any other well-formed file
+FINDINGS = {}
